@@ -73,7 +73,7 @@ class Ctx:
         specification alone is reported to the caller (res.violated)."""
         if "seed" not in kw and kw.get("simulate"):
             kw["seed"] = self.seed
-        allow_empty = kw.pop("allow_empty", False)
+        require_cases = kw.pop("require_cases", False)
         res = tlcmod.run_tlc(module, cfg, **kw)
         print(f"  [tlc] {label or module}: generated={res.generated} distinct={res.distinct} printed={len(res.printed)} "
               f"violated={res.violated} {res.wall_s:.1f}s", file=sys.stderr, flush=True)
@@ -92,7 +92,7 @@ class Ctx:
                 **({"coverage_actions": {k: v[0] for k, v in res.coverage.items()}} if res.coverage else {}),
             }
         )
-        if kw.get("tags") and not res.printed and not allow_empty:
+        if require_cases and not res.printed:
             # a generator run that emits NOTHING makes the family it feeds check nothing (this happened: a slot added to
             # MC_Compose made the simulated walks one step too short to complete a schema) - never silently
             raise tlcmod.MachineryError(f"TLC emitted no case for {label or module} (tags {kw['tags']})")
